@@ -3,6 +3,7 @@ package main
 import (
 	"fmt"
 	"go/types"
+	"os"
 	"sort"
 	"strings"
 
@@ -271,7 +272,16 @@ func (x *Exec) varCandidates(fr *Frame, name string) []varCand {
 						continue // struct fields are not local variables
 					}
 					c := varCand{v: v.X, blk: b, idx: i, isAdr: v.IsAddr, obj: obj}
-					// the value is defined where it is defined, not where it is referenced
+					// The variable holds this value at the point of the reference. (An
+					// earlier version moved the candidate to the point where the VALUE is
+					// defined; after `value = unescaped` that made the name `value` denote
+					// `unescaped` from the latter's definition on -- i.e. before the
+					// assignment -- and program-point assertions inside the loop that builds
+					// `unescaped` were evaluated against the wrong slice.)
+					if os.Getenv("GOVC_OLDLOOKUP") == "" {
+						out = append(out, c)
+						continue
+					}
 					if di, ok := v.X.(ssa.Instruction); ok && di.Block() != nil {
 						c.blk = di.Block()
 						c.idx = instrIndex(di)
@@ -316,7 +326,7 @@ func (x *Exec) lookupLocal(fr *Frame, name string, at *ssa.BasicBlock, st *State
 				continue
 			}
 		}
-		dom := c.blk == at && (c.idx < 0 || x.lookupAtEnd) || c.blk != at && c.blk.Dominates(at)
+		dom := c.blk == at && (c.idx < 0 || x.lookupAtEnd && (!x.lookupLimited || c.idx < x.lookupLimit)) || c.blk != at && c.blk.Dominates(at)
 		if !dom {
 			continue
 		}
